@@ -127,6 +127,44 @@ def main(argv):
                                  "printModel(model, true) is unique and the model is not modified", "violates=0" in out2, out2.strip()[-300:]))
         chk.native_facts.append(("native random models / edit-then-assign sequences: new ids unique, old ids unchanged, lookups agree with a traversal",
                                  m.group(1) == "0", out.strip()[-300:]))
+        # update() is a trusted contract of the slices ("the hash is current only if no identifier changed").  The part of it that can be read off the
+        # real code: every KIND of identifier that the index build reads must also be read by the hash computation (relational fact over the clang AST of
+        # the four functions; coarse: kinds are (declaring class, getter), not objects).  A kind the hash does not read is an edit update() cannot see.
+        def id_reads(sig):
+            from cxx2c import _walk
+            out = set()
+            for n in _walk(tu.find(sig)):
+                if n.get("kind") == "MemberExpr" and n.get("inner") and re.search(r"(^id|Id)$|^unitAttributes$", n.get("name", "")):
+                    t = n["inner"][0].get("type") or {}
+                    q = t.get("desugaredQualType") or t.get("qualType") or ""
+                    mm = re.search(r"libcellml::(\w+)", q)
+                    nm = "unitId" if n["name"] == "unitAttributes" else n["name"]
+                    if not re.match(r"(set|remove|assign|make)", nm):
+                        out.add((mm.group(1) if mm else "?") + "." + nm)
+                if n.get("kind") == "DeclRefExpr" and re.search(r"^equivalence\w*Id$", (n.get("referencedDecl") or {}).get("name", "")):
+                    out.add("Variable." + n["referencedDecl"]["name"])
+            return out
+        pre = "libcellml::Annotator::AnnotatorImpl::"
+        indexed = id_reads(pre + "listIdsAndItems") | id_reads(pre + "listComponentIdsAndItems")
+        hashed = id_reads(pre + "generateHash") | id_reads(pre + "doUpdateComponentHash")
+        if len(indexed) < 5 or not hashed:
+            raise Undecided("must-fire: identifier reads of the index build / hash computation not found in annotator.cpp (%s / %s)" % (sorted(indexed), sorted(hashed)))
+        missing = sorted(indexed - hashed)
+        chk.extra_cov["hash_covers_index"] = {"indexed_kinds": sorted(indexed), "hashed_kinds": sorted(hashed), "missing": missing}
+        chk.native_facts.append(("AST of annotator.cpp: every kind of identifier read by listIdsAndItems/listComponentIdsAndItems is read by generateHash/doUpdateComponentHash "
+                                 "(so update() can notice its edit)", not missing, "indexed %s; hashed %s" % (sorted(indexed), sorted(hashed))))
+        if missing:
+            from common import OUTROOT, write_json
+            what = ("update(): the hash that decides whether the id index is current does not read %s, which the index build does read: after such an identifier is edited "
+                    "the stale index is kept and makeUniqueId() can return an identifier the model already carries" % ", ".join(missing))
+            mf = re.search(r"FUZZ violates=1 what=(.*)", chk.fuzz_out, re.S)
+            path = os.path.join(OUTROOT, "out", "replay", "C13", "hash_covers_index.json")
+            write_json(path, {"property": "C13", "failed_obligation": {"id": "hash_covers_index", "class": "frame", "function": "Annotator::AnnotatorImpl::generateHash", "desc": what,
+                                                                      "file": os.path.join(SRC, "annotator.cpp"), "line": ""},
+                              "counterexample": {}, "replayed_on_real_code": bool(mf), "replay_detail": mf.group(1)[:400] if mf else "the native fuzz found no duplicate (seed %d)" % chk.seed,
+                              "verifier_output": "clang AST: identifier reads of the index build %s; of the hash computation %s" % (sorted(indexed), sorted(hashed)),
+                              "how_to_rerun": "cd /verif && ./check C13 quick"})
+            chk.violations.append((what + (" - reproduced on the real code: " + mf.group(1)[:300].strip() if mf else ""), path, "" if mf else " no-failing-input-found"))
 
     c.pre_steps = [build]
     c.trusted_base = [
@@ -134,7 +172,8 @@ def main(argv):
         "the construction of the mapped AnyCellmlElement values (create/set*/UnitsItem::create) are frame-nothing stubs",
         "listids unit: the object tree is read through contract stubs of the getters at arbitrary ghost indices; the id set tracks one arbitrary identifier Z exactly (models/pointwise.h)",
         "effect slices (tools/slicer.py): every condition is a nondeterministic choice, all data is dropped; only the order of effects on each path is kept",
-        "update() is a trusted contract: generateHash() is sensitive to every identifier of the model (NOT checked - the hash in fact ignores connection/mapping ids)",
+        "update() is a trusted contract: generateHash() is sensitive to every identifier of the model. Checked only in part: every KIND of identifier the index build reads is read by "
+        "the hash computation (AST fact, found that mapping/connection ids were ignored - fixed 4bdd2fe); that the string is built injectively and std::hash does not collide is NOT checked",
         "every loop of the slices carries the same loop contract (specs/C13/effects.h) and is not unwound; recursion (component trees) is unwound 6 deep over a 16-state abstraction",
         "effect vocabulary of checks/C13.py: id setters = member functions named set*Id / remove*Id",
     ]
@@ -143,7 +182,7 @@ def main(argv):
                      "with a complete id list, and re-establish the invariant. Complete for the finite abstraction; the abstraction drops all data, so "
                      "'every item that lacked an id gets one' and 'existing ids unchanged' are NOT decided here (only exercised by the native fuzz).")
     c.not_covered = ["completeness of assignment and preservation of existing ids (data-dependent)", "Printer::printModel(model, true): makeUniqueId(IdList&) and the autoIds branches of printer.cpp (only the id collection they rely on is under contract; the rest is exercised by the native print fuzz)",
-                     "generateHash sensitivity"]
+                     "generateHash sensitivity beyond the kinds of identifier it reads (injective construction of the hashed string, hash collisions)"]
 
     def replay(chk, h, o, ce):
         if h.name in ("h_listComponentIds", "h_listIds"):
